@@ -395,6 +395,9 @@ pub enum Edit {
     WriteOlderMtime(u8),
     /// a perfectly good variant plus a comment holding a byte that is not UTF-8: the file cannot be read as text
     WriteNonUtf8(u8),
+    /// one save that removes the refresh rate AND says something else (variant v): the last word of the file is
+    /// applied, then the polling ends
+    WriteValidWithoutRate(u8),
     /// (documents whose last line sits inside a YAML block scalar) the final line break of the file is added or taken
     /// away - which changes the scalar, i.e. the configuration, although only the very end of the file differs
     ToggleFinalNewline,
@@ -425,6 +428,7 @@ pub fn reload_strategy() -> impl Strategy<Value = ReloadCase> {
         2 => (0u8..5).prop_map(Edit::WriteOlderMtime),
         2 => (0u8..5).prop_map(Edit::WriteNonUtf8),
         2 => Just(Edit::ToggleFinalNewline),
+        1 => (0u8..5).prop_map(Edit::WriteValidWithoutRate),
     ];
     (prop::bool::weighted(0.3), 0u8..5, 1u8..60, prop::collection::vec(edit, 1..=12), prop::bool::weighted(0.4)).prop_map(|(json, initial, initial_rate, edits, tail)| ReloadCase { json, initial, initial_rate, edits, tail: tail && !json })
 }
@@ -668,6 +672,14 @@ fn check_reload_in(dir: &Path, c: &ReloadCase, obs: &mut Obs) -> CaseResult {
                     file_mtime = fresh;
                     set_file(&file_text, file_mtime);
                 }
+            }
+            Edit::WriteValidWithoutRate(v) => {
+                file_variant = Some(*v % 5);
+                file_rate = None;
+                file_text = vtext(*v, None, file_nl);
+                file_mtime = fresh;
+                file_exists = true;
+                set_file(&file_text, file_mtime);
             }
             Edit::RemoveRate => {
                 if let (true, Some(v)) = (file_exists, file_variant) {
@@ -961,7 +973,9 @@ pub fn smoke_child(c: &Smoke, obs: &mut Obs) -> CaseResult {
             std::fs::write(&path, content).unwrap();
         }
     };
-    publish(&text(0));
+    // (in-place mode: the first version was saved by an editor that puts a byte-order mark in front)
+    let first = if c.symlink { text(0) } else { format!("{}# saved with a byte-order mark\n{}", '\u{feff}', text(0)) };
+    publish(&first);
     log4rs::init_file(&path, des).map_err(|e| Failure { sig: "C15:init_file".into(), msg: e.to_string() })?;
     let tag_now = |sink: &Arc<Mutex<Vec<(String, String)>>>| -> Option<String> {
         sink.lock().unwrap().clear();
@@ -969,6 +983,17 @@ pub fn smoke_child(c: &Smoke, obs: &mut Obs) -> CaseResult {
         let t = sink.lock().unwrap().first().map(|x| x.0.clone());
         t
     };
+    if !c.symlink {
+        // touched, not changed: the same bytes with a new modification time leave the logger alone
+        let built_before = built.load(Ordering::SeqCst);
+        std::thread::sleep(Duration::from_millis(40));
+        publish(&first);
+        let f = std::fs::OpenOptions::new().write(true).open(&path).unwrap();
+        let _ = f.set_modified(SystemTime::now() + Duration::from_secs(5));
+        std::thread::sleep(Duration::from_millis(300));
+        ensure!(built.load(Ordering::SeqCst) == built_before, "C15:unchanged-file-reapplied", "the file (saved with a byte-order mark) was touched without being changed and the reloader rebuilt the configuration ({} appender builds instead of {})", built.load(Ordering::SeqCst), built_before);
+        obs.class("smoke:touched-file-with-byte-order-mark");
+    }
     // (the file asks for a poll every 20 ms: 30 s are 1500 polling periods)
     let wait_for = |want: &str| -> bool {
         let deadline = std::time::Instant::now() + Duration::from_secs(30);
